@@ -70,6 +70,18 @@ DecodeClauses(e) ==
        : i \in 1..Len(e.runs)}
      \cup F(e.unch = 1, "C16", "input_modified")
 
+\* a sequence of DecodeString calls into one target with one scratch buffer: the target evolves as the
+\* specification says and no later call disturbs it
+RECURSIVE SeqFails(_, _, _)
+SeqFails(steps, i, target) ==
+  IF i > Len(steps) THEN {}
+  ELSE LET st == steps[i]
+           s == DecodeSpec(st["in"], [ok |-> st.rd[1] = 1, p |-> st.rd[2], val |-> st.rdval], target)
+       IN F(st.ok = (IF s.ok THEN 1 ELSE 0) /\ (s.ok => st.p = s.p) /\ st.after = s.target,
+            "C12", "decode_sequence_step_" \o ToString(i))
+          \cup SeqFails(steps, i + 1, s.target)
+DecSeqClauses(e) == SeqFails(e.steps, 1, e.prior)
+
 \* ---- C17 ----
 SanClauses(e) ==
   LET s == e["in"]  x == Utf8Sanitize(s) IN
@@ -85,6 +97,7 @@ Clauses(e) ==
     [] e.op = "tok" -> TokClauses(e)
     [] e.op = "decode" -> DecodeClauses(e)
     [] e.op = "san" -> SanClauses(e)
+    [] e.op = "decseq" -> DecSeqClauses(e)
 
 TraceInit == l = 1
 TraceNext == /\ l <= Len(Trace)
